@@ -17,10 +17,46 @@ def guid(rng):
     return "{" + str(uuid.UUID(int=rng.getrandbits(128))) + "}"
 
 
-def gen_recipe(rng: random.Random, tier="quick", max_depth=1, nst=None, disorder=0.0, min_depth=1):
+PLAIN_HEADS = ["sig1", "sig2", "hds1", "hds2", "hds1-cut", "hds2-cut", "near1", "near2"]
+
+
+def gen_plain_head(rng: random.Random, kind: str, nsec: int):
+    """What the guest wrote at the very start of a Plain image (a Plain image IS the guest's bytes, so anything can be there):
+      sigV      the 16 signature bytes of an expanding image, format V, and nothing else of a header
+      hdsV      a complete expanding image of format V stored raw from LBA 0 (nested virtualisation, an image dd'ed onto a disk)
+      hdsV-cut  the same, longer than the storage: only its beginning fits
+      nearV     the signature with its last byte changed (not an expanding image by anybody's rule)
+    -> the `head` entry of a Plain image of the recipe"""
+    ver = int(kind[3]) if kind.startswith("sig") or kind.startswith("hds") else int(kind[4])
+    if kind.startswith("hds"):
+        spc = rng.choice([1, 1, 2, 8])
+        if kind.endswith("-cut"):
+            ncl = max(2, (nsec + spc - 1) // spc + rng.choice([1, 3]))
+        else:
+            ncl = max(1, min(6, (nsec * 512 - 64) // (spc * 512 + 4) - 1))
+        return {"kind": kind, "ver": ver, "layer": hds.gen_layer(rng, ver, spc, ncl, ncl * spc, rng.randrange(256))}
+    return {"kind": kind, "ver": ver}
+
+
+def plain_head_bytes(head) -> bytes:
+    sig = hds.SIG1 if head["ver"] == 1 else hds.SIG2
+    if head["kind"].startswith("sig"):
+        return sig
+    if head["kind"].startswith("near"):
+        return sig[:15] + bytes([sig[15] ^ 0x20])
+    inner, _ = hds.build_layer(head["layer"])
+    return inner.read_at(0, inner.size)
+
+
+def gen_recipe(rng: random.Random, tier="quick", max_depth=1, nst=None, disorder=0.0, min_depth=1, plain_head=None, mult=1):
     """nst: number of storages (default: 1..4); disorder: probability that a descriptor with >= 2 storages is forced to list them in
-    an order that is NOT ascending by Start (a plain shuffle leaves half of all 2-storage descriptors in order)."""
+    an order that is NOT ascending by Start (a plain shuffle leaves half of all 2-storage descriptors in order).
+    plain_head = (kind of PLAIN_HEADS, where): the root image of storage `where` ("first" / "last" / "middle" / "all") is a Plain image
+    whose content starts with gen_plain_head(kind). mult: every storage is `mult` times as long (storages of several stream buffers)."""
     nst = nst or rng.choice([1, 1, 2, 3, 4])
+    head_at = set()
+    if plain_head:
+        head_at = {"first": {0}, "last": {nst - 1}, "middle": {nst // 2}, "all": set(range(nst))}[plain_head[1]]
     depth = rng.randrange(min_depth, max_depth + 1)
     # snapshot tree: a chain of `depth` shots plus a few side branches
     chain = [DEFAULT_TOP if (depth == 1 or rng.random() < 0.5) else guid(rng)]
@@ -37,18 +73,21 @@ def gen_recipe(rng: random.Random, tier="quick", max_depth=1, nst=None, disorder
     for s in range(nst):
         spc = rng.choice([1, 2, 8, 16, 63])
         nsec = rng.choice([1, 2, 3, 5, 8]) * spc * rng.choice([1, 1, 3]) + (rng.randrange(spc) if rng.random() < 0.3 else 0)
-        nsec = max(1, nsec)
+        nsec = max(1, nsec) * mult
         # an image may be larger than the [Start, End) range of its storage (capacity rounded up to whole clusters, a plain file
         # preallocated in bigger steps): only End - Start sectors of it belong to the disk
         over = rng.choice([0, 0, 0, (spc - nsec % spc) % spc or spc, 8, 3])
         images = []
         for d in range(depth):       # d = 0 is the root layer
             plain = (d == 0 and rng.random() < 0.35) if depth > 1 else rng.random() < 0.4
+            plain = plain or (d == 0 and s in head_at)
             ncl = (nsec + spc - 1) // spc
             ncl = (nsec + over + spc - 1) // spc
             layer = None if plain else hds.gen_layer(rng, rng.choice([1, 2]), spc, ncl + rng.choice([0, 1]), nsec + over, rng.randrange(256))
             images.append({"guid": chain[len(chain) - 1 - d], "type": "Plain" if plain else "Compressed",
                            "file": f"st{s}.{d}." + ("hdd" if plain else "hds"), "layer": layer, "seed": rng.randrange(256), "extra": over})
+            if d == 0 and s in head_at:
+                images[-1]["head"] = gen_plain_head(rng, plain_head[0], nsec + over)
         # other snapshots' images (must not be used)
         extra = [{"guid": sh[0], "type": "Compressed", "file": f"st{s}.x{j}.hds", "layer": hds.gen_layer(rng, 2, spc, (nsec + spc - 1) // spc, nsec, rng.randrange(256)), "seed": 1}
                  for j, sh in enumerate(shots) if sh[0] not in chain]
@@ -124,6 +163,8 @@ class Truth:
                     img = Image()
                     img.put_pat(0, n + im.get("extra", 0) * 512, im["seed"])
                     img.finish(n + im.get("extra", 0) * 512)
+                    if im.get("head"):
+                        img.patch(0, plain_head_bytes(im["head"])[: img.size])
                     layers.append(("P", im, img, None))
                 else:
                     img, loc = hds.build_layer(im["layer"])
